@@ -123,7 +123,7 @@ static sim_rng g_srng;
 uint64_t g_next_preempt;
 static size_t g_dec_pos, g_preempt_pos;
 
-uint64_t g_steps, g_accesses;
+uint64_t g_steps, g_accesses, g_accesses_preempted;
 int g_cur_fiber_id;
 int g_sim_active;
 sim_decision *g_trace; size_t g_trace_n; static size_t g_trace_cap;
@@ -305,6 +305,8 @@ static bool fiber_can_run(Fiber *f)
     }
 }
 
+static int g_at_preempt;     /* inside an access-level preemption (for the stall decision below) */
+
 static void schedule(uint32_t p16)
 {
     Fiber *cand[MAX_FIBERS];
@@ -327,8 +329,10 @@ static void schedule(uint32_t p16)
     unsigned c = sim_decide(DK_SWITCH, n, cur_ok ? p16 : 0x10000u);
     Fiber *next = cand[c];
     if (next != g_cur) {
-        if (cur_ok && W.p_stall) {
-            unsigned k = sim_decide(DK_STALL, 17, W.p_stall);
+        if (cur_ok && (W.p_stall || (g_at_preempt && W.p_shared))) {
+            /* with conflict-directed preemption the preempted thread is usually held back for a while:
+               the other threads get time to reach the same shared location */
+            unsigned k = sim_decide(DK_STALL, 17, (g_at_preempt && W.p_shared) ? 40000u : W.p_stall);
             if (k) { g_cur->stall_until = g_steps + 4ull * k; g_probe[PR_STALLS]++; }
         }
         hooks_on_switch();
@@ -826,7 +830,9 @@ void simomp_preempt_slow(void)
     if (g_nfib > 1 && g_sim_active && g_preempt_trace_n < 20000) {
         preempt_trace_push(at);
         g_probe[PR_PREEMPTS]++;
+        g_at_preempt = 1;
         schedule(0x10000u);
+        g_at_preempt = 0;
     } else if (W.explicit_decisions) {
         preempt_trace_push(at);
     }
@@ -839,7 +845,10 @@ void simomp_preempt_now(void)
     if (!sim_rng_chance(&g_srng, W.p_shared)) return;
     preempt_trace_push(g_accesses);
     g_probe[PR_PREEMPTS]++;
+    g_accesses_preempted++;
+    g_at_preempt = 1;
     schedule(0x10000u);
+    g_at_preempt = 0;
 }
 
 void simomp_preempt_soon(void)
